@@ -375,8 +375,9 @@ def nest_drop():
                 continue
             first = "".join(kinds[k][0] for k in stack)
             cont = "".join(kinds[k][1] for k in stack)
-            for l1 in ("-----", "text 1", "-----U", "-----O"):
-                if l1.startswith("-----") and len(l1) > 5:      # a list that starts on the SECOND line inside the innermost container
+            for l1 in ("-----", "text 1", "-----U", "-----O", "-----Q"):
+                second = l1.startswith("-----") and len(l1) > 5
+                if second:      # a list / quote that starts on the SECOND line inside the innermost container
                     if depth == 4:
                         continue
                     m, pad = kinds[l1[-1]]
@@ -384,11 +385,22 @@ def nest_drop():
                 else:
                     head = [first + l1, cont + "list 1", cont + "list 2"] if l1 == "-----" else [first + l1, cont + "text 2"]
                 nq = stack.count("Q")
-                for keep in range(1, depth):            # the outer prefix that survives the drop
+                for keep in range(1, depth + (1 if second else 0)):            # the outer prefix that survives the drop
                     outer = "".join(kinds[k][1] for k in stack[:keep])
                     blanks = [None] + [">" * q for q in range(0, min(nq, 2) + 1)]
+                    if keep == depth:       # only the second-line container is left: blank line carrying the whole outer prefix
+                        blanks = [None, outer.rstrip()]
                     for blank in blanks:
                         for leaf in ("some text", "```block\n" + outer + "code\n" + outer + "```", "-----", "# h"):
                             lines = head + ([blank] if blank is not None else []) + [outer + x if i == 0 else x for i, x in enumerate(leaf.split("\n"))]
                             out.append("\n".join(lines) + "\n")
+                            if keep == depth:
+                                out.append("\n".join(lines + [outer.rstrip(), outer + "-----", first.rstrip() + " another"]) + "\n")
     return list(dict.fromkeys(out))
+
+
+def nest_reopen():
+    """The sub-family of nest_drop() in which a container opened on the second line is closed again while its parents stay
+    open, and the parents go on (break, new item): the per-rule container bookkeeping (leading-space index trackers) has to
+    pop exactly one level."""
+    return [d for d in nest_drop() if d.endswith(" another\n")]
